@@ -67,6 +67,15 @@ Theorem C13_source_write_is_the_model : forall W item c buf,
 Proof. exact src_write8. Qed.
 Print Assumptions C13_source_write_is_the_model.
 
+(* ... and for BitReadStreamT<>::read<W>(), W <= 8: the translated body returns the model's value and cursor and leaves the buffer alone. *)
+Theorem C13_source_read_is_the_model : forall W c buf,
+  1 <= W <= 8 -> c < 256 -> Forall (fun x => x < 256) buf ->
+  c + W <= 8 * N.of_nat (length buf) -> (length buf <= 32)%nat ->
+  result (run leaf_ftable (width_const W) BitReadStreamT_100__read_5 [] (cursor_fld c) (stream_obj buf))
+  = let '(v, c') := read buf c W in Some (Some (Z.of_N v), cursor_fld c', stream_obj buf).
+Proof. exact src_read8. Qed.
+Print Assumptions C13_source_read_is_the_model.
+
 (* the hypotheses are satisfiable and the statement is not vacuous: a 3-bit field at offset 5 of a 2-byte buffer *)
 Example C13_nonvacuous :
   let '(b, c) := write (buffer_clear 16) 0 5 21 in
